@@ -61,6 +61,9 @@ type instCfg struct {
 	Source string `json:"source,omitempty"`
 	// Knobs: further environment names set to a free port each (see portKnobs)
 	Knobs []string `json:"knobs,omitempty"`
+	// HTTPExtras: the config file also sets every routing-related http setting to a non-default value
+	// (api_prefix, api_prom_prefix, websocket, gzip off, debug)
+	HTTPExtras bool `json:"http_extras,omitempty"`
 }
 
 type route struct {
@@ -311,7 +314,12 @@ func startOnce(c *run.Ctx, bin string, cfg instCfg) (in *instance, retry bool) {
 			fileLogin = "old-" + cfg.Login
 			env = append(env, "QRYN_LOGIN="+cfg.Login)
 		}
-		doc, _ := json.Marshal(map[string]any{"auth_settings": map[string]any{"basic": map[string]any{"username": fileLogin, "password": filePass}}})
+		docMap := map[string]any{"auth_settings": map[string]any{"basic": map[string]any{"username": fileLogin, "password": filePass}}}
+		if cfg.HTTPExtras {
+			docMap["http_settings"] = map[string]any{"api_prefix": "/qryn", "api_prom_prefix": "/prom", "gzip": false, "gzip_static": false, "debug": true,
+				"websocket": map[string]any{"enable": true}, "cors": map[string]any{"enable": true, "origin": "*"}}
+		}
+		doc, _ := json.Marshal(docMap)
 		cf := filepath.Join(dir, "qryn.json")
 		if err := os.WriteFile(cf, doc, 0600); err != nil {
 			c.Note("cannot write config file: " + err.Error())
@@ -1240,6 +1248,10 @@ func configs(c *run.Ctx) []instCfg {
 		instCfg{Mode: "reader", Name: "C", Login: b.Login, Pass: "Rot" + randWord(c, "passC", 6), Source: "file+env-password"},
 		instCfg{Mode: "writer", Name: "D", Login: "dep" + randWord(c, "loginD", 4), Pass: b.Pass, Source: "file+env-login"},
 		instCfg{Mode: "reader", Name: "E", Login: b.Login, Pass: b.Pass, Source: "file", Cors: "*"})
+	// the routing-related settings of the configuration file at non-default values (a deployment behind a reverse
+	// proxy under a sub-path)
+	out = append(out, instCfg{Mode: "reader", Name: "G", Login: b.Login, Pass: b.Pass, Source: "file", HTTPExtras: true},
+		instCfg{Mode: "writer", Name: "G", Login: b.Login, Pass: b.Pass, Source: "file", HTTPExtras: true})
 	// port-valued settings the sources name besides the application and database ports: one instance per mode
 	// with all of them set
 	if ks := portKnobs(); len(ks) > 0 {
